@@ -19,6 +19,8 @@
 //	ptick <edge>     txt := Format(pipeline/tick.AST.Build(CreatePipeline(txt)))   => <text> | err | panic
 //	pjson <edge>     p := CreatePipeline(txt); q := Unmarshal(Marshal(p)) → DOT + canonical JSON of q
 //	                                                                     => ok <dot> <json> | err | panic
+//	pnodes <edge>    the nodes of CreatePipeline(txt) in Walk order, each with the names of its parents and a
+//	                 reflective dump of its exported fields (see dumpVal)  => ok <n> {node <GoType> <name> <k> <parent>*k <val>} | err | panic
 //
 // Dumps are prefix token lists (see dumpNode); every string is %XX-escaped.
 package c13
@@ -28,6 +30,7 @@ import (
 	"encoding/json"
 	"fmt"
 	"os"
+	"reflect"
 	"regexp"
 	"sort"
 	"strconv"
@@ -419,6 +422,144 @@ func pipeObs(p *pipeline.Pipeline) string {
 }
 
 // ---------------------------------------------------------------------------------------------
+// reflective dump of a pipeline node: the VALUES pipeline/tick renders (model: Kap/Model/C13Tick.lean, Val)
+//
+//	s <esc> | i <int64> | f <float> | b 0|1 | d <ns> | lam <k> <k dump tokens> | lamnil | star | starnil
+//	ilist <n> v*n ([]interface{}) | slice <n> v*n (any other slice) | map <n> (<esc key> v)*n sorted by key
+//	struct <n> (<Field> v)*n (exported fields, embedded structs flattened) | nil | other
+
+var (
+	tDuration = reflect.TypeOf(time.Duration(0))
+	tLambda   = reflect.TypeOf((*ast.LambdaNode)(nil))
+	tStar     = reflect.TypeOf((*ast.StarNode)(nil))
+	tIfaces   = reflect.TypeOf([]interface{}(nil))
+)
+
+func structFields(v reflect.Value, depth int, out *[][]string) {
+	t := v.Type()
+	for i := 0; i < t.NumField(); i++ {
+		f := t.Field(i)
+		if f.PkgPath != "" && !f.Anonymous { // unexported (the graph pointers of the embedded node)
+			continue
+		}
+		fv := v.Field(i)
+		if f.Anonymous {
+			// embedded structs are flattened - also the unexported chainnode / node, whose exported fields
+			// (QuietFlag) are promoted to the pipeline node
+			ev := fv
+			for ev.Kind() == reflect.Ptr && !ev.IsNil() {
+				ev = ev.Elem()
+			}
+			if ev.Kind() == reflect.Struct {
+				structFields(ev, depth, out)
+				continue
+			}
+			if f.PkgPath != "" {
+				continue
+			}
+		}
+		var toks []string
+		dumpVal(fv, depth+1, &toks)
+		*out = append(*out, append([]string{f.Name}, toks...))
+	}
+}
+
+func dumpVal(v reflect.Value, depth int, out *[]string) {
+	add := func(t ...string) { *out = append(*out, t...) }
+	if depth > 8 || !v.IsValid() {
+		add("other")
+		return
+	}
+	switch v.Type() {
+	case tDuration:
+		add("d", strconv.FormatInt(v.Int(), 10))
+		return
+	case tLambda:
+		if v.IsNil() {
+			add("lamnil")
+			return
+		}
+		if !v.CanInterface() {
+			add("other")
+			return
+		}
+		var d []string
+		dumpNode(v.Interface().(*ast.LambdaNode).Expression, &d)
+		add("lam", strconv.Itoa(len(d)))
+		add(d...)
+		return
+	case tStar:
+		if v.IsNil() {
+			add("starnil")
+		} else {
+			add("star")
+		}
+		return
+	}
+	switch v.Kind() {
+	case reflect.String:
+		add("s", kit.Esc(v.String()))
+	case reflect.Int64:
+		add("i", strconv.FormatInt(v.Int(), 10))
+	case reflect.Float64:
+		add("f", fmtFloat(v.Float()))
+	case reflect.Bool:
+		if v.Bool() {
+			add("b", "1")
+		} else {
+			add("b", "0")
+		}
+	case reflect.Interface:
+		if v.IsNil() {
+			add("nil")
+		} else {
+			dumpVal(v.Elem(), depth, out)
+		}
+	case reflect.Ptr:
+		if v.IsNil() {
+			add("nil")
+		} else if v.Elem().Kind() == reflect.Struct {
+			dumpVal(v.Elem(), depth, out)
+		} else {
+			add("other")
+		}
+	case reflect.Slice:
+		tag := "slice"
+		if v.Type() == tIfaces {
+			tag = "ilist"
+		}
+		add(tag, strconv.Itoa(v.Len()))
+		for i := 0; i < v.Len(); i++ {
+			dumpVal(v.Index(i), depth+1, out)
+		}
+	case reflect.Map:
+		if v.Type().Key().Kind() != reflect.String {
+			add("other")
+			return
+		}
+		keys := make([]string, 0, v.Len())
+		for _, k := range v.MapKeys() {
+			keys = append(keys, k.String())
+		}
+		sort.Strings(keys)
+		add("map", strconv.Itoa(len(keys)))
+		for _, k := range keys {
+			add(kit.Esc(k))
+			dumpVal(v.MapIndex(reflect.ValueOf(k).Convert(v.Type().Key())), depth+1, out)
+		}
+	case reflect.Struct:
+		var fs [][]string
+		structFields(v, depth, &fs)
+		add("struct", strconv.Itoa(len(fs)))
+		for _, f := range fs {
+			add(f...)
+		}
+	default:
+		add("other")
+	}
+}
+
+// ---------------------------------------------------------------------------------------------
 // executing a case
 
 func execCase(ops []string) (out []string) {
@@ -563,6 +704,25 @@ func execCase(ops []string) (out []string) {
 				a.Program.Format(&buf, "", false)
 				txt = buf.String()
 				return kit.Esc(txt)
+			})
+		case "pnodes":
+			guard(line, func() string {
+				p, err := mkPipeline(txt, arg(1))
+				if err != nil {
+					return "err"
+				}
+				var toks []string
+				n := 0
+				p.Walk(func(node pipeline.Node) error {
+					n++
+					toks = append(toks, "node", reflect.TypeOf(node).Elem().Name(), kit.Esc(node.Name()), strconv.Itoa(len(node.Parents())))
+					for _, q := range node.Parents() {
+						toks = append(toks, kit.Esc(q.Name()))
+					}
+					dumpVal(reflect.ValueOf(node), 0, &toks)
+					return nil
+				})
+				return "ok " + strconv.Itoa(n) + " " + strings.Join(toks, " ")
 			})
 		case "pjson":
 			guard(line, func() string {
